@@ -1,5 +1,6 @@
 import Model.Flow
 import Proofs.FlowOnce
+import Proofs.FlowExec
 
 /-! # C11 — no transaction taken from the mempool is lost on its way into the chain
 
@@ -7,7 +8,8 @@ import Proofs.FlowOnce
 Vocabulary (`Model/Flow.lean`, executed by the driver against the real reaper / single sequencer / producer):
 a history is a `List Flow.Op` (`mempool txs` = what `GetTxs` answers from now on, `reap`, `produce`, `restart`,
 `crash k` = the process dies when only the first `k` durable writes of the last operation are on disk and is
-restarted on that image) run by `Flow.opStep` from the first start on an empty disk (`Flow.history`).
+restarted on that image; `produceFail` = a production step during which the execution layer answers `ExecuteTxs`
+with an error — followed by `restart`: the node dies during `ExecuteTxs`) run by `Flow.opStep` from the first start on an empty disk (`Flow.history`).
 Ghost (`Proofs/FlowInv.lean`): `handed` = the batches the queue accepted from the reaper, `released` = the batches
 the queue released to the producer, `lost` = the batches taken by a production step that crashed in the loss window,
 `ever` = every batch ever accepted.  `chainTxs` / `pendingTxs` = the transactions of the committed blocks in height
@@ -275,5 +277,60 @@ example :
 example :
     (history wCfg [.mempool [t1, t2], .reap, .produce, .produce, .crash 1]).map (fun r => (r.2.lost, r.2.handed)) =
       some ([[t1, t2]], [[t1, t2]]) := by decide +kernel
+
+/-! ## 3. failures of the execution layer
+
+`Op.produceFail` is an operation like any other: `C11_always_restarts`, `C11_conservation`, `C11_quiescence`,
+`C11_once_partial`, `C11_crash_characterised`, `C11_crash_partial`, `C11_restarts_lose_nothing` above quantify over
+histories that contain it.  The theorem below names what makes them true. -/
+
+/-- **A failing execution loses nothing**: in every reachable state (any history before it, crashes included), when
+`ExecuteTxs` fails — or the node dies in it — during the step that took the batch `b` from the queue, the chain is
+untouched and the block waiting at `height + 1` holds exactly `b` (it was saved *before* the execution was
+asked); the next step, whatever the execution layer answers then, takes nothing further from the queue and either
+leaves the node as it is or — only when the execution succeeds — commits exactly `b`. -/
+theorem C11_exec_failure_loses_nothing (c : Cfg) (hc : CfgOK c) (ops : List Op) (σ : RunSt) (g : Ghost)
+    (h : history c ops = some (σ, g)) (b : Queue.Batch) (rest : List FW)
+    (htook : (produce c σ.n .fail).2.1 = FW.qdel b :: rest) :
+    pendingTxs (produce c σ.n .fail).1.prod.store = b ∧
+    chainTxs (produce c σ.n .fail).1.prod.store = chainTxs σ.n.prod.store ∧
+    ∀ ex, (produce c (produce c σ.n .fail).1 ex).1.q = (produce c σ.n .fail).1.q ∧
+      ((produce c (produce c σ.n .fail).1 ex).1.prod = (produce c σ.n .fail).1.prod ∨
+       (ex = .ok ∧
+        chainTxs (produce c (produce c σ.n .fail).1 ex).1.prod.store = chainTxs σ.n.prod.store ++ b ∧
+        pendingTxs (produce c (produce c σ.n .fail).1 ex).1.prod.store = [])) := by
+  obtain ⟨σ0, h0, hi0⟩ := init_inv hc
+  have hr : runG c σ0 {} ops = some (σ, g) := by
+    unfold history at h; rw [h0] at h; exact h
+  obtain ⟨σ', g', hr', hf⟩ := run_inv hc hi0 ops
+  rw [hr] at hr'
+  simp only [Option.some.injEq, Prod.mk.injEq] at hr'
+  obtain ⟨rfl, rfl⟩ := hr'
+  have hne : EverNe g := run_everNe (fun b hb => by cases hb) hr
+  obtain ⟨p1, p2, p3⟩ := execFail_pending hc hf htook
+  have hf1 := step_produce hc hf .fail
+  refine ⟨p1, p2, fun ex => ?_⟩
+  have := execFail_retry (σ := produceSt c σ .fail) hc hf1 p1 (hne b (hf.everM b p3)) ex
+  rw [← p2]
+  exact this
+
+/-- non-vacuity: the execution fails while the block with `[t1, t2]` is produced: the batch waits at `height + 1`,
+nothing is missing; the retry commits it — directly, after a restart (= the node died during `ExecuteTxs`), after a
+second failure, and after a crash right after the early save of the failed step -/
+example :
+    (history wCfg [.mempool [t1, t2], .reap, .produce, .produceFail]).map
+      (fun r => (chainTxs r.1.n.prod.store, pendingTxs r.1.n.prod.store, r.2.released)) =
+      some ([], [t1, t2], [[t1, t2]]) := by decide +kernel
+example : chainOf wCfg [.mempool [t1, t2], .reap, .produce, .produceFail, .produce] = some [t1, t2] := by decide +kernel
+example : chainOf wCfg [.mempool [t1, t2], .reap, .produce, .produceFail, .restart, .reap, .produce, .produce] = some [t1, t2] := by
+  decide +kernel
+example : chainOf wCfg [.mempool [t1, t2], .reap, .produce, .produceFail, .produceFail, .crash 0, .produce] = some [t1, t2] := by
+  decide +kernel
+example : missing wCfg [.mempool [t1, t2], .reap, .produce, .produceFail, .crash 3, .reap, .produce] = some [] := by
+  decide +kernel
+
+/-- … while a crash of the failed step before its early save is the recorded loss window again -/
+example : missing wCfg [.mempool [t1, t2], .reap, .produce, .produceFail, .crash 2, .reap, .produce, .produce] = some [t1, t2] := by
+  decide +kernel
 
 end Spec.C11
